@@ -137,6 +137,9 @@ func fragmentations(data []byte, label string, pairs, triples bool) {
 			}
 		}
 		for a := 1; a < len(data); a++ {
+			if len(data) > 6000 && a%7 != 0 && a%4096 > 2 && a%4096 < 4094 && a > 64 && a < len(data)-64 {
+				continue // very long payloads: every 7th offset, and all offsets around block boundaries and both ends
+			}
 			one(data, want, []int{a}, 0, eof, label)
 			if !pairs {
 				continue
@@ -250,7 +253,7 @@ func main() {
 			}
 		}
 	}
-	pairLimit := ctx.Pick(120, 1<<30)
+	pairLimit := ctx.Pick(120, 400)
 	tripleLimit := ctx.Pick(36, 60)
 	ctx.Jobs("frag", len(inputs), func(j int) {
 		d := inputs[j].data
